@@ -384,6 +384,12 @@ fn candidates(m: &MV) -> Vec<MV> {
 /// Greedy structural minimisation: the smallest value reachable by the
 /// candidate moves on which `still_fails` holds. Deterministic and bounded.
 pub fn minimise(start: &MV, still_fails: &dyn Fn(&MV) -> bool) -> MV {
+    // values nested dozens of levels deep fail because of their depth; the
+    // candidate moves are quadratic in the depth and proptest re-runs the
+    // check (and with it this function) on every shrink step
+    if start.depth() > 40 {
+        return start.clone();
+    }
     // phase 1: the smallest sub-tree that fails on its own
     let mut subs: Vec<&MV> = Vec::new();
     start.walk(&mut |m| subs.push(m));
